@@ -565,7 +565,22 @@ VCase gen_grid(int maxn, bool nondegenerate_only) {
       if (m[0] * m[1] * m[2] >= 2 && m[0] * m[1] * m[2] <= maxn)
         break;
     }
-    const double amp = cls == 3 ? vr::logu(1e-13, 0.3) : 0.;
+    // perturbation amplitude: the whole range, and (40%) the decade and a half
+    // just above the snapping tolerance of the plane-cutting construction
+    // (~4e-9 sides): bisector planes then pass close to existing vertices and
+    // the on-plane decisions have to be consistent - the regime of its
+    // "complicated setup" branches, outside the open finding K4 (< 1e-6)
+    double amp = 0.;
+    if (cls == 3)
+      amp = vr::logu(1e-13, 0.3);
+    if (cls == 3 && vr::coin(0.4)) {
+      // a full cubic lattice of 5^3 or 6^3 displaced by 1.5e-6..2e-5 sides
+      const int mm = (int)vr::irange(5, 6);
+      if (mm * mm * mm <= maxn) {
+        m[0] = m[1] = m[2] = mm;
+        amp = mm * vr::logu(1.5e-6, 2e-5);
+      }
+    }
     const bool drop = vr::coin(0.3);
     const int stagger = vr::weighted({5, 1, 1}); // cubic, bcc-like, shifted planes
     for (int ix = 0; ix < m[0]; ++ix)
@@ -1175,17 +1190,25 @@ bool sliver_prone(const Problem &P) {
 }
 
 // Known finding "oldvoronoi_tolerance_near_degenerate": with four or more
-// generators within 1e-4 sides of a common axis-aligned plane (a lattice
-// perturbed by less than the snapping tolerance of OldVoronoiCell) the plane
-// cutting construction takes inconsistent on-plane decisions.
+// generators within a few snapping tolerances of a common axis-aligned plane (a
+// lattice perturbed by about the tolerance of OldVoronoiCell) the plane cutting
+// construction takes inconsistent on-plane decisions.  OldVoronoiCell snaps a
+// vertex onto a cutting plane when it is closer than tol = 2e-10 |sides|^2 /
+// |d|, d = half the generator separation (OLDVORONOI_TOLERANCE).  Measured on
+// the unchanged tree without any exclusion (1110 failing cases of 21600): the
+// spread of the four generators is at most 16.1 tol in all of them; the matcher
+// uses 50 tol.
 bool old_tolerance_prone(const Problem &P) {
+  const V3 sd = tov(P.box.get_sides());
+  const double tol =
+      2e-10 * (double)dot(sd, sd) / (0.5 * min_separation(P)); // a length
   for (int k = 0; k < 3; ++k) {
     std::vector<double> v;
     for (auto &x : P.pos)
-      v.push_back((x[k] - P.box.get_anchor()[k]) / P.box.get_sides()[k]);
+      v.push_back(x[k] - P.box.get_anchor()[k]);
     std::sort(v.begin(), v.end());
     for (size_t i = 0; i + 3 < v.size(); ++i)
-      if (v[i + 3] - v[i] < 1e-4)
+      if (v[i + 3] - v[i] < 50. * tol)
         return true;
   }
   return false;
